@@ -447,7 +447,7 @@ def _driver(case):
 
 def plan(tier):
     if tier == "quick":
-        return [{"part": "machine", "shards": 16, "budget": {"n_examples": 350, "steps": 25}}]
+        return [{"part": "machine", "shards": 16, "budget": {"n_examples": 700, "steps": 25}}]
     return [{"part": "machine", "shards": 16, "budget": {"n_examples": 8000, "steps": 40}}]
 
 
